@@ -95,7 +95,7 @@ func (g *gen) tagLines(ind string, t *TypeDecl) []string {
 	var out []string
 	for _, k := range g.o.TagKeys {
 		switch g.r.Intn(5) {
-		case 0, 1:
+		case 0:
 			v := g.o.TagValues[g.r.Intn(len(g.o.TagValues))]
 			if v == "" {
 				out = append(out, fmt.Sprintf("%s// +%s", ind, k))
@@ -258,8 +258,12 @@ func (g *gen) typeSpec(f, kind string, grouped bool) {
 		t.Decoys = append(t.Decoys, "detached:"+d)
 	}
 	// decoy: trailing comment with a tag on the previous line (a var spec), directly above an undocumented declaration
-	lines := g.tagLines(ind, t)
-	if !g.o.NoDecoys && len(lines) == 0 && len(g.o.TagKeys) > 0 && g.r.Intn(3) == 0 {
+	wantDecoy := !g.o.NoDecoys && len(g.o.TagKeys) > 0 && g.r.Intn(4) == 0
+	var lines []string
+	if !wantDecoy {
+		lines = g.tagLines(ind, t)
+	}
+	if wantDecoy {
 		d := g.decoy(g.o.TagKeys[g.r.Intn(len(g.o.TagKeys))])
 		if grouped {
 			g.n++
